@@ -59,6 +59,27 @@ def main():
     if args.replay:
         doc = json.load(open(args.replay))
         ctx.replay = doc.get("input", doc)
+    # per-call watchdog for complete runs (ticc_util.execute): a run that does not return is a violation of the
+    # properties that promise termination (C09: bounded loop; C20: failures never hang) and an infrastructure
+    # failure for the others (their check cannot decide anything about a call that never returns)
+    import ticc_util as _tu
+
+    def _on_hang(cfg):
+        sys.stdout = sys.__stdout__
+        try:
+            if prop in ("C09", "C20"):
+                ctx.violation("impl-violation", f"a complete run did not return within {_tu.HANG['seconds']} s "
+                              "(the main loop does not terminate)", cfg, {"site": "hang"})
+                ctx.extra["aborted_after_hang"] = True
+                code = common.finish(ctx)
+                sys.stdout.flush()
+                os._exit(code)
+            print(f"[{prop}] infrastructure failure: a complete run did not return within {_tu.HANG['seconds']} s: {cfg}",
+                  file=sys.stderr, flush=True)
+        finally:
+            os._exit(2)
+    _tu.HANG["on_hang"] = _on_hang
+    _tu.HANG["seconds"] = int(os.environ.get("VERIF_CALL_TIMEOUT", "300"))
     try:
         lean = common.LeanSide(mod.LEAN_PROPS, mod.LEAN_HELPERS)
         ctx.lean = lean.run()
